@@ -320,6 +320,8 @@ def build(run):
     run.scan('restore_state_aliases', _sb1.Counter._restore_state is _sb1.Counter._setmod and _sb1.Counter.init_from_value is _sb1.Counter._setmod
              and _sb2.Input._restore_state is _sb2.Input.init_from_value and 'get_state' not in vars(_sb1.Counter) and 'get_state' not in vars(_sb2.Input),
              'Counter._restore_state is _setmod, Input._restore_state is init_from_value (validated like a put: C17); both use the default get_state (the output)')
+    from specs import timedate as tdspec
+    tdspec.verify_td_persistence(run)      # TimeDate/TimeSpan: saved state = exported configuration; restore = reconfiguration with it
     from specs import lifecycle, startup
     startup.verify_startup(run)             # _init_sblocks_sync_2: states are saved after the initialisation, only with a storage
     lifecycle.verify_run_forever(run)       # clean-up: states + stop time saved iff the start completed, before the blocks are stopped
